@@ -117,6 +117,18 @@ func awsInstanceBody() *schema.BodySchema {
 						"volume_size": {IsOptional: true, Constraint: schema.AnyExpression{OfType: cty.Number}, Description: md("volume_size-desc")},
 						"encrypted":   {IsOptional: true, Constraint: schema.AnyExpression{OfType: cty.Bool}, Description: md("encrypted-desc")},
 					},
+					// a list block inside a list block: instances addressed at depth 2
+					Blocks: map[string]*schema.BlockSchema{
+						"tag_spec": {
+							Type:        schema.BlockTypeList,
+							Description: md("tag_spec-desc"),
+							Body: &schema.BodySchema{
+								Attributes: map[string]*schema.AttributeSchema{
+									"key": {IsRequired: true, Constraint: schema.AnyExpression{OfType: cty.String}, Description: md("tag_spec-key-desc")},
+								},
+							},
+						},
+					},
 				},
 			},
 			"network_interface": {
